@@ -17,6 +17,15 @@ CLAIMS = {
               "(Model/Contacts.lean) on valid maps at scales 1/64..64, offsets to 1e7, box/circle/concave/holed areas; nodes and branches compared with coordinates."),
         note=TB + " partial: the snapping pass being the identity on valid maps is not a theorem (no Lean model of simple_snap/insert_point yet); it is covered by S01 only. union_all, gpd.clip, WKT-key injectivity are L0.",
         ref="DESIGN.md section 6 C01", technique="Lean 4 theorems on contact structures + exact-rational arrangement oracle run against the implementation"),
+    "C02": dict(
+        text=("Exact specification + correspondence, with the index arithmetic proved. The documented defects (V NODE, MULTI JUNCTION, STACKED TRACES, MULTIPLE "
+              "CROSSCUTS, CUTS ITSELF) are specified per trace in exact rational geometry (Spec/Defects.lean); stream S02 compares the real Validation verdicts with it "
+              "on ALL 7140 lattice pairs (exhaustive, every run), lattice triples (4000 random x a random lattice symmetry in quick; all 280840 in thorough) and larger "
+              "lattice polyline configurations: per trace 'error iff in a defect, documented string included'. Proved in Lean: the regenerated junction index shift "
+              "addresses the same point after removing the trace's own block, for every list, block and outside position (C02_shift_correct; this was defect F13), "
+              "stays in range, thresholds t*m and 10*t*m; a trace in no defect gets the empty tuple in the specification."),
+        note=TB + " partial: there is no Lean model of the individual geometric validators (GEOS intersection/overlaps/is_simple/split); their verdicts are tied to the exact specification by (bounded-)exhaustive correspondence only. Configurations where two segments meet at an angle so shallow that they run alongside inside the stacking buffer (C10's STACKED window) are not crisp and are skipped (counted).",
+        ref="DESIGN.md section 6 C02", technique="exact-rational defect specification in Lean + exhaustive lattice correspondence; Lean proof of the junction index arithmetic"),
     "C05": dict(
         text=("Proof (Lean 4): for ALL branch lists over any point type -- nodes duplicate-free, every end has exactly one node, every node an end, "
               "handshake sum = 2|branches|, E iff near boundary, class = fixed function of degree (regenerated degree_to_class = spec), "
@@ -41,6 +50,23 @@ CLAIMS = {
               "bool-array sums, branch boundary count = number of E ends. Tie: translator + stream S08a (the real functions vs the spec evaluated exactly)."),
         note=TB + " numpy float reductions compared within 1e-9 relative; np.pi / np.sqrt are parameters. End-to-end Network.parameters on valid maps is covered under C01/C14 streams when built.",
         ref="DESIGN.md section 6 C08", technique="Lean 4 theorems over the regenerated parameter function against a hand-written published-definition spec"),
+    "C09": dict(
+        text=("Proof (Lean 4) over a literal hand model of Validation.run_validation/_validate with ORACLE validators (any verdicts, any fix function): one result per "
+              "input row in order; every error tuple duplicate-free and made only of documented strings (regenerated validator table = documented table: order, "
+              "ERROR strings, LINESTRING_ONLY, MAJOR sets); with fixing disallowed no geometry changes; with fixing allowed each output geometry is the input or a "
+              "chain of fix_method results. Tie: validator table regenerated each run; stream S09 runs the real run_validation on frames of every defect kind, "
+              "None/empty/multi-part rows, Z values, stale error column, non-default indexes x allow_fix x validator subsets x allow_empty_area, checks rows / order / "
+              "index / attribute cells / geometry / caller frames directly, and checks that the full run equals the model's composition of per-validator isolated verdicts."),
+        note=TB + " Individual validators are oracles (their verdicts are the subject of C02/C10). linemerge covering the same points is checked numerically (equal set, equal length). F19, F21 (empty LineString with a validator subset) and F7 (non-default index) were genuine defects here and are repaired.",
+        ref="DESIGN.md section 6 C09", technique="Lean 4 invariants by induction over validators/rows for all oracles + differential composition check"),
+    "C13": dict(
+        text=("Proof (Lean 4) over the same model with the process-global class attribute (UnderlappingSnapValidator.ERROR) as explicit state threaded through rows, "
+              "runs and objects: the outcome of a run does not depend on the incoming value of the global (C13_global_irrelevant), hence after ANY history of other "
+              "validations a frame validates to what it validates to first (C13_history_irrelevant, induction-free corollary for all histories), and re-running gives "
+              "the same outcome. Tie: stream S13 -- all ordered pairs of the 8-frame pool exhaustively + random histories (new / re-run same object / re-validate "
+              "earlier output carrying the error column) in one process, each step compared with the result from a fresh interpreter."),
+        note=TB + " Object-level caches (_vnodes, _faulty_junctions, swapped self.traces) are not modelled as state: that they are recomputed consistently is covered by S13 only (partial). Idempotence of the fix (linemerge of a merged line) is checked by S13's re-validation steps, not proved.",
+        ref="DESIGN.md section 6 C13", technique="Lean 4 state-machine theorem (global-irrelevance for all oracles and histories) + history-based differential correspondence"),
     "C12": dict(
         text=("Proof (Lean 4) over a hand model of determine_crosscut_abutting_relationships: the row of a pair of sets mentions only those two sets, so adding "
               "sets anywhere in the list (incl. empty ones) neither changes nor removes a row (C12_rows_independent, via sublist-monotonicity of combinations); "
